@@ -593,7 +593,11 @@ def oracle_C05(results, metas, st):
         if not isinstance(cx, list):
             continue
         if any(isinstance(x, list) and x[:2] == ['reload', 'stream_failed'] for x in cx):
-            out.append(viol('a checkpoint written to text could not be read back (stream failed)', [r['case']])); continue
+            texts = [x[1] for x in cx if isinstance(x, list) and x and x[0] == 'text' and isinstance(x[1], bytes)]
+            # the property speaks about checkpoints whose numeric fields are finite (sums that overflowed print as inf / nan)
+            if not any(b'inf' in t_ or b'nan' in t_ for t_ in texts):
+                out.append(viol('a checkpoint written to text could not be read back (stream failed)', [r['case']]))
+            continue
         seq = [x for x in cx if isinstance(x, list) and x and x[0] in ('dump', 'text', 'reload')]
         for i, x in enumerate(seq):
             if x[0] == 'reload' and x[1] == 'ok':
